@@ -206,7 +206,7 @@ def parser_functions(P):
     return out
 
 
-def analyse(ctx, replace=None, only=None, config="ship"):
+def analyse(ctx, replace=None, only=None, config="ship", hooks=None):
     """only (self-check runs): {"files": [...], "rules": [...]} restricts the sweep to the parser functions of those files
     and the whole-program rules to the named ones"""
     R = ctx.R
@@ -216,22 +216,20 @@ def analyse(ctx, replace=None, only=None, config="ship"):
     R.require(len(fns) >= 100, "only %d parser functions found" % len(fns))
     if only:
         fns = [f for f in fns if any(f.file.endswith(x) for x in only.get("files", []))]
-    hooks = ParserHooks()
+    hooks = hooks or ParserHooks()
     n_ok = n_und = 0
     loops_checked = 0
     req_seen = set()
+    from sa.bounds import std_states
     for f in fns:
         R.fn(f)
-        num = Num(f, P, hooks, max_paths=20000)
-        num.track_progress = True
         sites = [s for s in access_sites(f) if not libc_table(f, s[2])]
         import time as _t, os as _o
         _t0 = _t.time()
-        try:
-            states = num.states_at({s[0] for s in sites} | {-1})
-            if _o.environ.get("SA_TIMING") and _t.time() - _t0 > 2:
-                print("  [time] %s %.1fs paths=%d" % (f.name, _t.time() - _t0, num.paths))
-        except Limit as ex:
+        num, states, ex = std_states(P, f, hooks)
+        if _o.environ.get("SA_TIMING") and _t.time() - _t0 > 2:
+            print("  [time] %s %.1fs paths=%d" % (f.name, _t.time() - _t0, num.paths))
+        if ex is not None:
             R.broken("NUM trace limit in %s: %s" % (f.name, ex))
             continue
         for eid, kind, n in sites:
@@ -295,7 +293,7 @@ def analyse(ctx, replace=None, only=None, config="ship"):
         if want & {"PROGRESS", "ERRCHAN"}:
             uri_state_machine(R, P)
         if "RECUR" in want:
-            recursion(R, P, parser_functions(P))
+            recursion(R, P, parser_functions(P), which=only.get("recur", ("self", "xml", "cjson")))
         if "ERRCHAN" in want:
             errchan(R, P, fns)
         if "ABORT" in want:
@@ -317,12 +315,11 @@ def analyse(ctx, replace=None, only=None, config="ship"):
     C05.avx_shell(R, P)
 
 
-def recursion(R, P, fns):
+def recursion(R, P, fns, which=("self", "xml", "cjson")):
     names = {f.name: f for f in fns}
-    ext = {}
-    for fl in ("source/external/cJSON.c",):
-        pass
     for name, f in sorted(names.items()):
+        if "self" not in which:
+            break
         for e in f.calls(name):
             dom = dominators(f)
             # a depth counter compared against a limit must dominate the recursive call
@@ -335,7 +332,7 @@ def recursion(R, P, fns):
                     "%s calls itself without a depth counter tested against a limit: input nesting depth translates directly into stack depth (a long run of nested containers overflows the stack)" % name)
     # XML: recursion through the user's callback is bounded by max_depth
     t = names.get("aws_xml_node_traverse")
-    if R.require(t is not None, "aws_xml_node_traverse not found"):
+    if "xml" in which and R.require(t is not None, "aws_xml_node_traverse not found"):
         push = [e for e in t.calls("aws_array_list_push_back") if argstr(t, e.node, 0, alias=False) == "parser->callback_stack"]
         dom = dominators(t)
         ok = False
@@ -362,7 +359,7 @@ def recursion(R, P, fns):
     # cJSON nesting limit (call-site fact about the vendored parser)
     for nm in ("parse_array", "parse_object"):
         g = P.fn(nm)
-        if g is None:
+        if g is None or "cjson" not in which:
             continue
         okc = any("depth" in g.show(b.cond) and "1000" in g.show(b.cond).replace("CJSON_NESTING_LIMIT", "1000") for b in g.blocks.values() if b.cond is not None)
         R.check(okc, "RECUR", "cjson:%s:nesting-limit" % nm, "source/external/cJSON.c", "vendored parser tests its nesting limit")
